@@ -3,4 +3,5 @@ package bunpaginate
 var zzRegistry = map[string]func(int){
 	"ZZ_C17Col": ZZ_C17Col,
 	"ZZ_C17Off": ZZ_C17Off,
+	"ZZ_C17Tok": ZZ_C17Tok,
 }
